@@ -121,6 +121,11 @@ def block_table(thorough):
     # long inputs: fixed-type blocks whose output stream (one page) fills up
     t += [B("ZeroCrossing", {"sps": 4.0}, "nrz", 6000),
           B("SymbolSync", {"sps": 4.0}, "nrz", 6000),
+          # samples per symbol that are not exactly representable (rounding of the f32 positions matters)
+          B("ZeroCrossing", {"sps": 2.4}, "nrz", 3000),
+          B("ZeroCrossing", {"sps": 3.6}, "nrz", 3000),
+          B("ZeroCrossing", {"sps": 3.3333333}, "nrz", 3000),
+          B("SymbolSync", {"sps": 3.6}, "nrz", 3000),
           B("RtlSdrDecode", {}, "bytes", 3001),
           B("RationalResampler<u8>", {"interp": 5, "deci": 1}, "bytes", 1300),
           B("RationalResampler<u8>", {"interp": 3, "deci": 2}, "ramp", 4000),
@@ -183,6 +188,10 @@ def fn_table(thorough):
     for code, allowed in codes:
         E("CorrelateAccessCode", {"code": code, "allowed": allowed}, "bits", 60, F("corr", code=code, allowed=allowed), sync=True)
         E("CorrelateAccessCodeTag", {"code": code, "allowed": allowed}, "bits", 60, F("corrtag", code=code, allowed=allowed), sync=True)
+    # byte-valued input and codes: symbols are compared for equality, not by their low bit
+    for code, allowed in (([1, 0, 1], 0), ([3, 2], 0), ([0], 0), ([255, 1, 0], 1)):
+        E("CorrelateAccessCode", {"code": code, "allowed": allowed}, "smallbytes", 80, F("corr", code=code, allowed=allowed), sync=True)
+        E("CorrelateAccessCodeTag", {"code": code, "allowed": allowed}, "smallbytes", 80, F("corrtag", code=code, allowed=allowed), sync=True)
     for d in ([0, 1, 2, 5] if not thorough else [0, 1, 2, 3, 4, 5]):
         E("Delay<Big>", {"delay": d}, "ramp", 8, F("delay", delay=d), big=True, sched=(d in (0, 2)))
         E("Skip<Big>", {"skip": d}, "ramp", 8, F("skip", skip=d), big=True, sched=(d in (0, 2)))
